@@ -66,6 +66,57 @@ Section Proofs.
     intros k Hk. assert (k = 0) by lia. subst. cbn. apply le_refl.
   Qed.
 
+  (** tie-breaking: the returned index is the FIRST maximal one (numpy argmax) *)
+  Lemma argmax_from_first : forall l idx bi bv pre,
+    length pre = idx -> bi < idx -> nth bi pre d = bv ->
+    (forall k, k < idx -> le (nth k pre d) bv = true) ->
+    (forall k, k < bi -> le bv (nth k pre d) = false) ->
+    forall k, k < fst (argmax_from l idx bi bv) ->
+      le (snd (argmax_from l idx bi bv)) (nth k (pre ++ l) d) = false.
+  Proof.
+    induction l as [|x r IH]; intros idx bi bv pre Hlen Hbi Hnth Hall Hfirst; cbn [argmax_from].
+    - cbn [fst snd]. rewrite app_nil_r. exact Hfirst.
+    - destruct (le x bv) eqn:E.
+      + intros k Hk. specialize (IH (Datatypes.S idx) bi bv (pre ++ [x])).
+        rewrite <- app_assoc in IH. cbn [app] in IH. apply IH; try assumption.
+        * rewrite app_length. cbn. lia.
+        * lia.
+        * rewrite app_nth1 by lia. exact Hnth.
+        * intros k0 Hk0. destruct (Nat.eq_dec k0 idx) as [->|Hne].
+          -- rewrite app_nth2 by lia. rewrite Hlen, Nat.sub_diag. cbn. exact E.
+          -- rewrite app_nth1 by lia. apply Hall. lia.
+        * intros k0 Hk0. rewrite app_nth1 by lia. apply Hfirst. exact Hk0.
+      + intros k Hk. specialize (IH (Datatypes.S idx) idx x (pre ++ [x])).
+        rewrite <- app_assoc in IH. cbn [app] in IH. apply IH; try assumption.
+        * rewrite app_length. cbn. lia.
+        * lia.
+        * rewrite app_nth2 by lia. rewrite Hlen, Nat.sub_diag. reflexivity.
+        * intros k0 Hk0. destruct (Nat.eq_dec k0 idx) as [->|Hne].
+          -- rewrite app_nth2 by lia. rewrite Hlen, Nat.sub_diag. cbn. apply le_refl.
+          -- rewrite app_nth1 by lia. apply le_trans with bv; [apply Hall; lia | apply le_total; exact E].
+        * intros k0 Hk0. rewrite app_nth1 by lia.
+          destruct (le x (nth k0 pre d)) eqn:E2; [|reflexivity].
+          rewrite (le_trans x (nth k0 pre d) bv E2 (Hall k0 Hk0)) in E. discriminate.
+  Qed.
+
+  Lemma argmax_first l : l <> [] ->
+    forall k, k < fst (argmax l) -> le (snd (argmax l)) (nth k l d) = false.
+  Proof.
+    destruct l as [|x r]; [congruence|]. intros _ k Hk. unfold Viterbi.argmax in *.
+    apply (argmax_from_first r 1 0 x [x] eq_refl ltac:(lia) eq_refl); [| |exact Hk].
+    - intros k0 Hk0. assert (k0 = 0) by lia. subst. cbn. apply le_refl.
+    - intros k0 Hk0. lia.
+  Qed.
+
+  Lemma argmax_first_index l : l <> [] ->
+    fst (argmax l) < length l /\ nth (fst (argmax l)) l d = snd (argmax l) /\
+    (forall k, k < length l -> le (nth k l d) (snd (argmax l)) = true) /\
+    (forall k, k < fst (argmax l) -> le (snd (argmax l)) (nth k l d) = false).
+  Proof.
+    intros Hne. destruct (argmax_spec l Hne) as (H1 & H2 & H3).
+    repeat split; try assumption. apply argmax_first. exact Hne.
+  Qed.
+
   Lemma map2_length f (a b : list S) : length (map2 f a b) = Nat.min (length a) (length b).
   Proof. revert b; induction a as [|x a IH]; intros [|y b]; cbn; auto. Qed.
 
